@@ -88,3 +88,14 @@ package mvs
 //@   requires root != nil
 //@   modifies heap, smap
 //@   loop 3: step new-names-are-fresh: when true ensures forall k: string :: old(has(newReqs, k)) ==> (has(newReqs, k) && newReqs[k] == old(newReqs[k]))
+
+// C10: the version order the adapter hands to the library is a total preorder with the root on top
+// (consequence of the postconditions of cmpVersion and the assumed semver axioms).
+//@ lemma C10-order int <<<
+//@ (declare-fun cmpv (Str Str) Int)
+//@ (assert (forall ((a Str) (b Str)) (! (= (cmpv a b) (ite (= b gs.empty) (ite (= a gs.empty) 0 (- 1)) (ite (= a gs.empty) 1 (semcmp a b)))) :pattern ((cmpv a b)))))
+//@ (declare-const a Str) (declare-const b Str) (declare-const c Str)
+//@ (assert (not (and (= (cmpv a b) (- (cmpv b a)))
+//@                   (=> (and (<= (cmpv a b) 0) (<= (cmpv b c) 0)) (<= (cmpv a c) 0))
+//@                   (>= (cmpv gs.empty a) 0))))
+//@ >>>
